@@ -9,6 +9,7 @@ from lib import datasheet as ds
 from lib.coreprop import core_shards, run_core_shard, replay_core
 
 ID = "C04"
+REQUIRED_CLASSES = ['idle_exact_period', 'refresh_under_traffic', 'zqcs_seen']      # classes that must occur in every run (else harness error: vacuous generator)
 LEVEL = "exploration"
 RULE = ("case = (configuration with refresh on: datasheet tREFI of a library/generated module at a generated clock, or shortened 100-250 cycles; postponing 1-8; ZQCS on/off) x "
         "(traffic from idle to saturating single-bank / all-write / all-read streams looped for >= 3.5 refresh sequences); non-trivial = >= 3 refresh sequences of which at "
